@@ -44,17 +44,22 @@ func faultCorpus() []corpusState {
 		{"second-commit-pending", staged2, [][]string{{"commit", "-m", "second"}, {"restore", "--staged", "a.txt", "new", "dir"}, {"reset", "--mixed", "HEAD@{0}"}, {"reset", "--hard", "HEAD@{0}"}}},
 		{"two-commits", c2, [][]string{{"reset", "--soft", "HEAD@{1}"}, {"reset", "--mixed", "HEAD@{1}"}, {"reset", "--hard", "HEAD@{1}"}, {"branch", "-r", "trunk"}, {"branch", "b2"}}},
 		{"three-branches", two, [][]string{{"switch", "main"}, {"switch", "topic"}, {"branch", "-d", "topic"}, {"branch", "-r", "renamed"}, {"reset", "--hard", "HEAD@{1}"}, {"update-ref", "refs/heads/topic", "@feature"}, {"update-ref", "refs/heads/feature", "@main"}}},
-		{"after-reset-dirty", afterReset, [][]string{{"restore", "dir", "a.txt"}, {"reset", "--hard", "HEAD@{0}"}, {"add", "a.txt"}, {"commit", "-m", "again"}}},
+		{"after-reset-dirty", afterReset, [][]string{{"restore", "dir", "a.txt"}, {"reset", "--hard", "HEAD@{0}"}, {"add", "a.txt"}, {"rm", "dir-x"}}},
 		{"renamed-branch", renamed, [][]string{{"switch", "old"}, {"branch", "-d", "old"}, {"reset", "--soft", "HEAD@{1}"}, {"branch", "-r", "main"}}},
 		{"emptied-staging-area", emptied, [][]string{{"commit", "-m", "everything removed"}, {"restore", "--staged", "dir"}}},
 	}
 }
 
+// readOnlyCorpus: read-only commands, enumerated for C16 in every state that has a repository with content.
+var readOnlyCorpus = [][]string{{"status"}, {"log"}, {"log", "-n", "2"}, {"reflog"}, {"ls-files", "-s"}, {"branch", "--list"}, {"rev-parse", "HEAD"}, {"cat-file", "-p", "@HEAD"}, {"write-tree"}}
+
 // resolveArgs replaces "@<branch>" by the commit id that branch holds in the prepared state.
 func resolveArgs(o *Obs, cmd []string) []string {
 	out := append([]string{}, cmd...)
 	for i, a := range out {
-		if strings.HasPrefix(a, "@") {
+		if a == "@HEAD" {
+			out[i] = o.HeadCommit()
+		} else if strings.HasPrefix(a, "@") {
 			out[i] = o.Branches[a[1:]]
 		}
 	}
@@ -67,12 +72,12 @@ func faultReplayer(pid string) func(string, json.RawMessage) error {
 		if err := json.Unmarshal(raw, &c); err != nil {
 			return err
 		}
-		p, err := prepare(c.Setup, nil2(c.Command))
+		p, err := prepare(c.Setup, c.Command)
 		if err != nil {
 			return fmt.Errorf("REPLAY-INFRA: %v", err)
 		}
 		defer p.close()
-		cmd := resolveArgs(p.pre, c.Command)
+		cmd := p.cmd
 		if c.AtOp != "" {
 			want, nth := c.AtOp, 1
 			if i := strings.Index(want, "#"); i >= 0 {
@@ -81,7 +86,7 @@ func faultReplayer(pid string) func(string, json.RawMessage) error {
 			}
 			found := false
 			for _, o := range p.ffOps {
-				if fileClass(p.base.Box, remapRoot(o.Path, p)) + ":" + o.Kind == want {
+				if fileClass(p.base.Box, remapRoot(o.Path, p))+":"+o.Kind == want {
 					nth--
 					if nth == 0 {
 						found = true
@@ -122,10 +127,6 @@ func remapRoot(path string, p *prepared) string {
 	return path
 }
 
-// nil2: the reference run of prepare needs the resolved command; resolution needs the state,
-// so prepare is called with the unresolved command only when it has no "@" arguments.
-func nil2(cmd []string) []string { return cmd }
-
 func init() {
 	replayers["c15"] = faultReplayer("C15")
 	replayers["c16"] = faultReplayer("C16")
@@ -145,52 +146,41 @@ func shardInfo() (int, int) {
 func enumerate(t *testing.T, pid string) {
 	shard, nsh := shardInfo()
 	idx := 0
+	skipped := 0
 	classes := map[string]int{}
 	var firstErr error
 	var sigs = map[string]int{}
 	for _, st := range faultCorpus() {
-		for _, cmd0 := range st.Commands {
+		cmds := st.Commands
+		if pid == "C16" && len(st.Setup) > 3 {
+			// reads are faultable too: the read-only commands must report a failed read, not print less
+			cmds = append(append([][]string{}, cmds...), readOnlyCorpus...)
+		}
+		for ci, cmd0 := range cmds {
+			readOnly := ci >= len(st.Commands)
 			idx++
 			if idx%nsh != shard {
 				continue
 			}
-			e := NewExec(profNone)
-			ok := true
-			for _, s := range st.Setup {
-				if err := e.Do(s); err != nil {
-					ok = false
-				}
-			}
-			cmd := resolveArgs(e.Cur, cmd0)
-			e.Close()
-			if !ok {
-				t.Fatalf("harness: cannot build state %s", st.Name)
-			}
-			p, err := prepare(st.Setup, cmd)
+			p, err := prepare(st.Setup, cmd0)
 			if err != nil {
-				t.Fatalf("harness: %v", err)
+				t.Fatalf("harness: cannot build state %s: %v", st.Name, err)
 			}
-			// branch ids do not depend on the clock here? They do: resolve again against this instance
-			cmd = resolveArgs(p.pre, cmd0)
-			if strings.Join(cmd, " ") != strings.Join(resolveArgs(p.pre, cmd0), " ") {
-				t.Fatalf("harness: unstable command")
-			}
-			p.close()
-			p, err = prepare(st.Setup, cmd)
-			if err != nil {
-				t.Fatalf("harness: %v", err)
-			}
-			cmd = resolveArgs(p.pre, cmd0)
-			if p.ffRes.Exit != 0 || p.ffRes.Panic {
-				// "@" ids differ between instances (wall clock): prepare again with ids of this instance
+			cmd := p.cmd
+			if p.ffRes.Exit != 0 && readOnly {
 				p.close()
-				p, _ = prepare(st.Setup, cmd)
+				continue // e.g. log before the first commit: nothing to enumerate
 			}
 			if p.ffRes.Exit != 0 {
+				// the corpus is built so that every command succeeds fault-free on a tree where the basic
+				// commands work; if it does not, this check cannot say anything about that pair
 				stats.Note(fmt.Sprintf("corpus command %v in state %s does not succeed fault-free (exit %d): skipped", cmd0, st.Name, p.ffRes.Exit))
+				stats.Extra("corpus_pairs_skipped", 1)
+				skipped++
 				p.close()
 				continue
 			}
+			stats.Extra("corpus_pairs_enumerated", 1)
 			n := p.nMod
 			if pid == "C16" {
 				n = p.nFault
@@ -242,6 +232,10 @@ func enumerate(t *testing.T, pid string) {
 	}
 	if firstErr != nil {
 		t.Fatal(firstErr)
+	}
+	if skipped > 0 {
+		// exit code 3 of the test binary = inconclusive (the driver maps it to exit 2)
+		fmt.Fprintf(os.Stderr, "INCONCLUSIVE-CORPUS: %d corpus pairs do not run fault-free on this tree\n", skipped)
 	}
 }
 
